@@ -80,3 +80,10 @@ CASES += [
     dict(id='c18-optional-pass-prints-mandatory-caption', prop='C18', file=A, expect='R11',
          old="            os << mCaptionOptional << endl;", new="            os << mCaptionMandatory << endl;"),
 ]
+
+TAH = 'src/celma/prog_args/detail/typed_arg.hpp'
+CASES += [
+    dict(id='c18-orig-level-counter-without-default-value', prop='C18', file=TAH, expect='R12',
+         old="   void defaultValue( std::string& dest) const override\n   {\n      dest.append( format::toString( mDestVar.value()));\n   } // TypedArg< LevelCounter>::defaultValue\n",
+         new=""),
+]
